@@ -189,6 +189,10 @@ func (c *Ctx) RequireCallers(rule, target string, allowed ...string) {
 		}
 		name := ir.FuncName(top)
 		key := fmt.Sprintf("%s/%s/caller=%s", rule, target, name)
+		if !inProd(top) {
+			c.Note(key, c.P.InstrPos(r.Instr), "test utility (testutil/), not part of the production program")
+			continue
+		}
 		if allow[name] {
 			seenAllowed[name] = true
 			c.OK(key, c.P.InstrPos(r.Instr), "allowed "+r.Kind)
